@@ -7,6 +7,8 @@ package main
 // exactly what F computes, so an obligation discharged on any view holds for
 // F; an obligation is reported only when it fails on every view.
 //
+//   thread      no expansion; only tests decided by constant φ inputs are
+//               short-circuited (`ok := a && b; if ok {…}` becomes nested ifs).
 //   inline-new  expands callees that are not in baseline_funcs.txt (the
 //               function inventory of the tree the rules were confirmed on):
 //               helpers introduced by a later refactoring. Depth ≤ 4.
@@ -16,6 +18,7 @@ package main
 import (
 	"bufio"
 	"embed"
+	"fmt"
 	"go/scanner"
 	"go/token"
 	"os"
@@ -157,6 +160,8 @@ func (c *Ctx) viewOf(f *ssa.Function) *ssa.Function {
 		pick = func(site *ssa.Call, g *ssa.Function, d int) bool {
 			return g.Pkg == f.Pkg && inModule(g) && !c.anchorSeen[g] && !ruleWords()[g.Name()] && len(g.Blocks) <= 40
 		}
+	case "thread":
+		depth = 0
 	default:
 		return f
 	}
@@ -166,7 +171,7 @@ func (c *Ctx) viewOf(f *ssa.Function) *ssa.Function {
 		}
 		return !mayBeNilErr(v, pred, nil)
 	}
-	nf, expanded, rep := ssa.CloneInline(f, pick, depth, oracle)
+	nf, expanded, threaded, rep := ssa.CloneInline(f, pick, depth, oracle)
 	if nf == nil {
 		if rep != "" {
 			c.Notef("view %s: %s kept as written (%s)", c.view, fname(f), strings.TrimSpace(firstLine(rep)))
@@ -174,7 +179,7 @@ func (c *Ctx) viewOf(f *ssa.Function) *ssa.Function {
 		m[f] = f
 		return f
 	}
-	if len(expanded) == 0 {
+	if len(expanded) == 0 && threaded == 0 {
 		m[f] = f
 		return f
 	}
@@ -193,7 +198,7 @@ func (c *Ctx) viewOf(f *ssa.Function) *ssa.Function {
 		ns = append(ns, n)
 	}
 	sort.Strings(ns)
-	c.viewNotes = append(c.viewNotes, c.view+": "+fname(f)+" ← "+strings.Join(ns, ", "))
+	c.viewNotes = append(c.viewNotes, fmt.Sprintf("%s: %s ← %s (%d decided test(s) threaded)", c.view, fname(f), strings.Join(ns, ", "), threaded))
 	m[f] = nf
 	return nf
 }
@@ -272,7 +277,7 @@ func evaluate(c *Ctx, id string) {
 	}
 	complete := len(plain.machine) == 0
 	used := []string{}
-	for _, v := range []string{"inline-new", "inline-pkg"} {
+	for _, v := range []string{"thread", "inline-new", "inline-pkg"} {
 		before := len(c.viewNotes)
 		r := runView(v)
 		if len(c.viewNotes) == before {
